@@ -430,3 +430,82 @@ func H_parse_php() {
 	symx.Reach("parsed")
 	symx.Assert((prog != nil && ctl == nil) || ctl != nil, "php-mode: program-or-diagnostic")
 }
+
+// phpSandwiches: a window in the MIDDLE of a .php file whose tail contains alternative-syntax
+// constructs (if: / endif;, else:, foreach: / endforeach;, @end directives): the rewriting pass
+// of parser/preprocessor.go searches keywords, balanced parentheses and colons across the window.
+var phpSandwiches = [][2]string{
+	{"<?php ", " if(1): endif;"},
+	{"<?php ", "IF (1): ENDIF; if(2): endif;"},
+	{"<?php if(", "): endif;"},
+	{"<?php if(1", "): echo 1; else: echo 2; endif;"},
+	{"<?php if(1): ", " else: endif;"},
+	{"<?php $s = \"", "\"; foreach($a as $b): endforeach;"},
+	{"<?php /*", "*/ while(0): endwhile;"},
+	{"<?php // ", "\nfor(;;): endfor;"},
+	{"<?php switch(1): case 1: ", " endswitch;"},
+	{"<p>", " @endif</p><?php if(1): ?>x<?php endif; ?>"},
+	{"<?php if(1): ?>", "<?php endif; ?>"},
+	{"<?php elseif", "(1): endif;"},
+}
+
+// H_php_mid: a symbolic window in the middle of a .php file, through Parser.ParseFile (shebang
+// handling, alternative-syntax rewriting, template tokenizer, parser).
+func H_php_mid() {
+	n := symx.Param("n", 1)
+	k := symx.Choose("ctx", len(phpSandwiches))
+	src := phpSandwiches[k][0] + symx.String("w", n) + phpSandwiches[k][1]
+	root := symx.VRoot()
+	defer symx.VCleanup()
+	symx.VFile(root+"/t.php", src)
+	p := parser.NewParser()
+	vm := runtime.NewVM(p)
+	vm.SetThrowControl(func(acl data.Control) {})
+	data.WriteOutput = func(string) {}
+	symx.KnownPanic("C01-nil-operand@", "nil@", true)
+	prog, ctl := p.ParseFile(root + "/t.php")
+	symx.Reach("parsed")
+	symx.Assert((prog != nil && ctl == nil) || ctl != nil, "php-mode (window in the middle): program-or-diagnostic")
+}
+
+// htmlOpeners: sources the lexer hands to the HTML tokenizer (they start with <!DOCTYPE).
+var htmlOpeners = [][2]string{
+	{"<!DOCTYPE", ""},
+	{"<!DOCTYPE html>", ""},
+	{"<!DOCTYPE html>\n<div ", ">x</div>"},
+	{"<!DOCTYPE html>\n<div a=", " b=\"1\">x</div>"},
+	{"<!DOCTYPE html>\n<div a=\"", "\">x</div>"},
+	{"<!DOCTYPE html>\n<div>", "</div>"},
+	{"<!DOCTYPE html>\n<div>{{ ", " }}</div>"},
+	{"<!DOCTYPE html>\n<div>{", "}</div>"},
+	{"<!DOCTYPE html>\n<p", ""},
+	{"<!DOCTYPE html>\n</", "p>"},
+	{"<!DOCTYPE html>\n<!--", "-->\n<p>x</p>"},
+	{"<!DOCTYPE html>\n<script>", "</script>"},
+	{"<!DOCTYPE html>\n<style>", "</style>"},
+	{"<!DOCTYPE html>\n<?php ", " ?>\n<p>"},
+	{"<!DOCTYPE html>\n<div @click=\"", "\" :x=\"1\"/>"},
+	{"<!DOCTYPE html>\n<div for=\"$a in $b\" ", "/>"},
+}
+
+// H_html_lex: the HTML tokenizer on a symbolic window: terminates without a Go panic, spans lie
+// inside the source.
+func H_html_lex() {
+	n := symx.Param("n", 1)
+	k := symx.Choose("ctx", len(htmlOpeners))
+	src := htmlOpeners[k][0] + symx.String("w", n) + htmlOpeners[k][1]
+	toks := lx.Tokenize(src)
+	symx.Reach("lexed")
+	for _, t := range toks {
+		s, e := t.Start(), t.End()
+		symx.Assert(0 <= s && s <= e && e <= len(src), "html: span-inside-source")
+	}
+}
+
+// H_html_parse: the same sources through the parser and, when accepted, the evaluator: a program
+// or a positioned diagnostic; an accepted template renders or raises a script-level error.
+func H_html_parse() {
+	n := symx.Param("n", 1)
+	k := symx.Choose("ctx", len(htmlOpeners))
+	parseAndRun(htmlOpeners[k][0] + symx.String("w", n) + htmlOpeners[k][1])
+}
